@@ -105,11 +105,13 @@ func (r *clusterRunner) scriptF() {
 		case "sleep":
 			r.s.SleepSim(time.Duration(st.Ms) * time.Millisecond)
 		case "kill":
+			r.noteMaturity()
 			if target.Node.Alive() {
 				target.KillProcess()
 				r.res.Fired["store_killed"]++
 			}
 		case "powerloss":
+			r.noteMaturity()
 			if target.Node.Alive() {
 				target.PowerLoss(st.ImageSeed, st.ImageMode)
 				r.res.Fired["store_power_loss"]++
@@ -129,10 +131,18 @@ func (r *clusterRunner) scriptF() {
 			for k := range r.net.Partitioned {
 				delete(r.net.Partitioned, k)
 			}
-			for _, s := range r.stores {
+			for i, s := range r.stores {
 				if !s.Node.Alive() || !s.Loaded {
 					if res := s.Start(bootTimeout); res != "loaded" {
 						r.violate("startup", "store %s did not restart: %s %s", s.Node.Name, res, s.Node.Note())
+					} else if r.seenMature[i] && s.FM != nil && !s.FM.Mature() {
+						// A store is mature for good; it starts as a fresh, immature one only when it finds no fraction at
+						// all, i.e. when retention had retired everything it held (a size limit below one fraction: the
+						// misconfiguration the generators try to stay clear of, but a burst of bulks between two maintenance
+						// passes can outgrow the limit). Such a store answers for ranges it no longer holds: completeness is
+						// not judged any more in this run.
+						r.forgotMaturity = true
+						r.s.Probe("hot_store_restarted_empty_after_retention")
 					}
 				}
 			}
@@ -152,6 +162,18 @@ func (r *clusterRunner) scriptF() {
 			r.asyncFetchF(st.Async, false)
 		case "async_wait":
 			r.asyncFetchF(st.Async, true)
+		}
+	}
+}
+
+// noteMaturity remembers which stores have been seen mature (retention has retired a fraction there).
+func (r *clusterRunner) noteMaturity() {
+	if r.seenMature == nil {
+		r.seenMature = map[int]bool{}
+	}
+	for i, st := range r.stores {
+		if st.Node.Alive() && st.Loaded && st.FM != nil && st.FM.Mature() {
+			r.seenMature[i] = true
 		}
 	}
 }
@@ -312,7 +334,7 @@ func (r *clusterRunner) validateF(label string) {
 			}
 			wi++
 		}
-		if !partial && wi != len(want) {
+		if !partial && wi != len(want) && !r.forgotMaturity {
 			r.violate("silent_partial", "%s: proxy search %q [%d,%d] desc=%v is presented as complete but lists %d of %d acknowledged matching documents; first missing %s (hot tier %s, %d/%d stores up, partitioned %v, fractions of hot-0-0: %v)",
 				label, s.Q.SeqQL(), s.From, s.To, s.Desc, wi, len(want), want[wi].ID(), r.c.HotMode, r.upCount(), len(r.stores), r.net.Partitioned, r.stores[0].Fracs())
 			return
@@ -439,6 +461,7 @@ func (r *clusterRunner) hotRule(label string, justRestarted bool) {
 	if r.c.HotMode != "hot" {
 		return
 	}
+	r.noteMaturity()
 	for i := 0; i < r.nHot; i++ {
 		st := r.stores[i]
 		if !st.Node.Alive() || !st.Loaded || st.FM == nil || !st.FM.Mature() {
